@@ -188,6 +188,8 @@ pub struct CodegenContext {
 
     symbols: SymbolTable<Symbol>,
     undefined: HashSet<UndefinedSymbol>,
+    /// Symbols that got another value during the current pass. They do require another pass, but they are not undefined
+    changed: HashSet<UndefinedSymbol>,
     current_scope: IdentifierPath,
     current_scope_nx: SymbolIndex,
 
@@ -240,6 +242,7 @@ impl CodegenContext {
             functions: HashMap::new(),
             symbols: SymbolTable::default(),
             undefined: HashSet::new(),
+            changed: HashSet::new(),
             current_scope: IdentifierPath::empty(),
             current_scope_nx: SymbolIndex::new(0),
             next_macro_scope_id: 0,
@@ -330,6 +333,7 @@ impl CodegenContext {
     fn next_pass(&mut self) {
         self.pass_idx += 1;
         self.next_macro_scope_id = 0;
+        self.changed.clear();
 
         log::trace!("\n* NEXT PASS ({}) *", self.pass_idx);
         self.segments.values_mut().for_each(|s| s.reset());
@@ -394,7 +398,7 @@ impl CodegenContext {
                         }
 
                         // If the symbol already existed but with a different value,
-                        // mark it as undefined so we will trigger another pass
+                        // remember that it changed so we will trigger another pass
                         if existing.data != symbol.data {
                             log::trace!(
                                 "`--> Symbol already existed, but has changed. Old value was: {:?}",
@@ -431,7 +435,7 @@ impl CodegenContext {
         // Variables don't require a new pass, since if they update somewhere in the assembly process
         // they would keep triggering new passes
         if maybe_require_new_pass && ty != SymbolType::Variable {
-            self.undefined.insert(UndefinedSymbol {
+            self.changed.insert(UndefinedSymbol {
                 scope_nx: self.current_scope_nx,
                 id,
                 span,
@@ -1509,7 +1513,7 @@ pub fn codegen(
             // If there were no other errors, then we should see if there was anything undefined.
             if errors.is_empty() {
                 // Nothing undefined anymore? Then we're done!
-                if ctx.undefined.is_empty() && !symbols_added {
+                if ctx.undefined.is_empty() && ctx.changed.is_empty() && !symbols_added {
                     break;
                 } else {
                     // If the same symbols are undefined that were undefined in the previous pass, they are truly undefined.
